@@ -179,8 +179,9 @@ def write_evidence(mod, tier, seed, m, wall, notes, known_lines, nviol):
     bound = getattr(mod, 'BOUND', None)
     if bound:
         ev['coverage']['bound'] = bound if isinstance(bound, str) else bound.get(tier, '')
-    os.makedirs(os.path.join(core.VERIF_DIR, 'evidence'), exist_ok=True)
-    path = os.path.join(core.VERIF_DIR, 'evidence', f"{mod.ID}.json")
+    evdir = os.environ.get('VFW_EVIDENCE_DIR') or os.path.join(core.VERIF_DIR, 'evidence')
+    os.makedirs(evdir, exist_ok=True)
+    path = os.path.join(evdir, f"{mod.ID}.json")
     text = core.dumps(ev, indent=1)
     try:
         import jsonschema
@@ -313,7 +314,7 @@ def _main(prop_id, args, seed, t0, scratch):
         d = m['violations'][sig]
         cases = sorted(d['cases'], key=lambda c: len(core.dumps(c['case'])))
         best = cases[0]
-        rdir = os.path.join(core.VERIF_DIR, 'replays', prop_id)
+        rdir = os.path.join(os.environ.get('VFW_REPLAY_DIR') or os.path.join(core.VERIF_DIR, 'replays'), prop_id)
         os.makedirs(rdir, exist_ok=True)
         safe = ''.join(ch if ch.isalnum() or ch in '-_.' else '_' for ch in sig)[:80]
         path = os.path.join(rdir, f"{safe}-{core.case_hash(best['case'])[:8]}.json")
